@@ -26,6 +26,7 @@ Section P.
   Notation open_sp_by_id := (open_sp_by_id frepr loads_b).
   Notation open_all := (open_all frepr loads_b).
   Notation add_from_ws := (add_from_ws frepr loads_s).
+  Notation resolve_id := (resolve_id).
 
   (* ================================================================ A. soundness of the caches *)
   Definition sound (c : cache) : Prop := forall i v, In (i, v) c -> cid v = i.
@@ -389,14 +390,15 @@ Section P.
       unfold Cache.handle_sp. simpl. rewrite (norm_objb _ _ Hn), Ho.
       exists (ensure_read f s), sp, w. split; [reflexivity|]. split; [exact Hv|]. split; [exact Hn|].
       split; [exact H1|apply (proj2 HA)].
-    - destruct (listed_exists f i Hi) as [Hex Hlen].
-      assert (Er : resolve f WSP i = inl i).
-      { unfold resolve, resolve_ids. assert (Hl : Nat.ltb (length i) 32 = false) by (apply Nat.ltb_ge; exact Hlen).
-        rewrite Hl, Hex. reflexivity. }
-      rewrite Er. unfold Cache.handle_sp. simpl.
+    - destruct (listed_exists f i Hi) as [Hex [Hlen Hm]].
+      assert (Er : resolve_id f i = Ok i).
+      { unfold Cache.resolve_id, Cache.contains_id.
+        assert (Hl : Nat.ltb (length i) 32 = false) by (apply Nat.ltb_ge; exact Hlen).
+        rewrite Hl, Hm, Hex. reflexivity. }
+      rewrite Er, El. unfold Cache.handle_sp. simpl.
       assert (El2 : sp_load_view f i = Ok (w, w)).
       { unfold Cache.sp_load_view, Cache.sp_load. rewrite G, Lb. unfold Cache.cid. fold (cid w).
-        rewrite Hid, str_eqb_refl. destruct w; try discriminate. reflexivity. }
+        destruct w; try discriminate Ho. rewrite Hid, str_eqb_refl. reflexivity. }
       rewrite El2. exists (reg (ensure_read f s) i w), w, w. split; [reflexivity|]. split; [exact Hv|].
       split; [reflexivity|]. split; [simpl; apply agrees_aset; auto|apply (proj2 HA)].
   Qed.
@@ -666,8 +668,9 @@ Section P.
     pose proof (ensure_read_sound f s H) as H1.
     destruct (alookup i (s_cache (ensure_read f s))) as [sp|].
     - unfold Cache.handle_sp in E. simpl in E. inversion E; subst. exact H1.
-    - destruct (resolve f WSP i) as [m|e]; [|inversion E; subst; exact H1].
+    - destruct (resolve_id f i) as [m|e]; [|inversion E; subst; exact H1].
       unfold Cache.handle_sp in E. simpl in E.
+      destruct (alookup m (s_cache (ensure_read f s))) as [x|]; [inversion E; subst; exact H1|].
       destruct (sp_load_view f m) as [[d v]|] eqn:El; inversion E; subst; [|exact H1].
       apply sound_reg; auto. eapply sp_load_view_valid; eauto.
   Qed.
@@ -700,36 +703,37 @@ Section P.
 
 End P.
 
-(* ================================================================ D. the present code (F9) *)
+(* ================================================================ D. the code as it is (after fix: d7351f9) *)
 Section NOW.
   Variable frepr : fl -> str.
   Variable loads_s : list N -> option json.
   Variable loads_b : list N -> dec.
 
-  (* the theorem the property asks for — proved for the REPAIRED comparison (late = true) *)
-  Theorem update_cache_exact_when_fixed : forall f s f' s' r,
+  (* after update_cache() returns, the cache file lists exactly the ids of the workspace, each with its true
+     state point, and an immediate second call reports nothing to do *)
+  Theorem update_cache_exact : forall f s f' s' r,
     Inv frepr f s -> NoDup (map fst (s_cache s)) -> file_nodup f -> ws_intact frepr loads_s loads_b f ->
     coll_free frepr loads_s f (map snd (s_cache s) ++ file_vals f) ->
-    update_cache_gen frepr loads_s true f s = (f', s', Ok r) ->
-    exact loads_s f' /\ listing f' = listing f /\
-    exists s'', update_cache_gen frepr loads_s true f' s' = (f', s'', Ok None).
-  Proof.
-    intros f s f' s' r HI Hn Hf Hw Hc E.
-    destruct (update_cache_exact_gen frepr loads_s loads_b true f s f' s' r HI Hn Hf Hw Hc (or_introl eq_refl) E)
-      as [H1 [H2 [_ H3]]]. auto.
-  Qed.
-
-  (* the code as it is: exact unless the call is issued in an F9 state *)
-  Theorem update_cache_exact_partial : forall f s f' s' r,
-    Inv frepr f s -> NoDup (map fst (s_cache s)) -> file_nodup f -> ws_intact frepr loads_s loads_b f ->
-    coll_free frepr loads_s f (map snd (s_cache s) ++ file_vals f) ->
-    f9_state f s = false ->
     update_cache frepr loads_s f s = (f', s', Ok r) ->
     exact loads_s f' /\ listing f' = listing f /\
     exists s'', update_cache frepr loads_s f' s' = (f', s'', Ok None).
   Proof.
-    intros f s f' s' r HI Hn Hf Hw Hc H9 E. unfold update_cache in *.
-    destruct (update_cache_exact_gen frepr loads_s loads_b F9_FIXED f s f' s' r HI Hn Hf Hw Hc (or_intror H9) E)
+    intros f s f' s' r HI Hn Hf Hw Hc E. unfold update_cache in *.
+    destruct (update_cache_exact_gen frepr loads_s loads_b F9_FIXED f s f' s' r HI Hn Hf Hw Hc (or_introl eq_refl) E)
+      as [H1 [H2 [_ H3]]]. auto.
+  Qed.
+
+  (* the comparison as it was before the fix is exact only outside the F9 states (kept as a record of the defect) *)
+  Theorem update_cache_before_fix_partial : forall f s f' s' r,
+    Inv frepr f s -> NoDup (map fst (s_cache s)) -> file_nodup f -> ws_intact frepr loads_s loads_b f ->
+    coll_free frepr loads_s f (map snd (s_cache s) ++ file_vals f) ->
+    f9_state f s = false ->
+    update_cache_gen frepr loads_s false f s = (f', s', Ok r) ->
+    exact loads_s f' /\ listing f' = listing f /\
+    exists s'', update_cache_gen frepr loads_s false f' s' = (f', s'', Ok None).
+  Proof.
+    intros f s f' s' r HI Hn Hf Hw Hc H9 E.
+    destruct (update_cache_exact_gen frepr loads_s loads_b false f s f' s' r HI Hn Hf Hw Hc (or_intror H9) E)
       as [H1 [H2 [_ H3]]]. auto.
   Qed.
 End NOW.
@@ -836,7 +840,18 @@ Lemma ex_HS : ex_ls (dumps ex_fr ex_u1) = Some ex_u1.
 Proof. vm_compute. reflexivity. Qed.
 Lemma ex_HB : ex_lb (dumps ex_fr ex_u1) = DVal ex_u1.
 Proof. vm_compute. reflexivity. Qed.
-Lemma ex_HU : exists s', update_cache ex_fr ex_ls ex_f9_fs fresh = (ex_f9_fs, s', Ok None).
+(* on the witness (a stale file listing a removed job) update_cache() of a NEW session rewrites the file *)
+Lemma ex_fixed : exists f' s',
+  update_cache ex_fr ex_ls ex_f9_fs fresh = (f', s', Ok (Some 1%N)) /\
+  cache_file f' = Some [(calc_id ex_fr ex_u1, ex_u1)].
+Proof.
+  pose (res := update_cache ex_fr ex_ls ex_f9_fs fresh).
+  exists (fst (fst res)), (snd (fst res)). split; vm_compute; reflexivity.
+Qed.
+
+(* ... whereas the comparison before the fix reported "up to date" and left it stale *)
+Lemma ex_before_fix : exists s',
+  update_cache_gen ex_fr ex_ls false ex_f9_fs fresh = (ex_f9_fs, s', Ok None).
 Proof. vm_compute. eexists. reflexivity. Qed.
 
 (* the witness state satisfies the hypotheses of the theorems above, and is an F9 state *)
@@ -851,16 +866,6 @@ Proof.
   split; [exact (w_nodup ex_fr ex_f9_fs ex_u0 ex_u1 ex_HC ex_Hne)|].
   split; [exact ex_HL|]. split; [exact ex_HC|].
   exact (w_f9 ex_fr ex_f9_fs ex_u0 ex_u1 ex_HL ex_HC ex_Hne).
-Qed.
-
-Theorem update_cache_exact_refuted :
-  exists f, Inv ex_fr f fresh /\ ws_intact ex_fr ex_ls ex_lb f /\ file_nodup f /\
-            (exists s', update_cache ex_fr ex_ls f fresh = (f, s', Ok None)) /\
-            ~ exact ex_ls f.
-Proof.
-  destruct ex_f9_hyps as [H1 [H2 [H3 _]]]. exists ex_f9_fs.
-  split; [exact H1|split; [exact H2|split; [exact H3|split; [exact ex_HU|]]]].
-  exact (w_not_exact ex_fr ex_ls ex_f9_fs ex_u0 ex_u1 ex_HL ex_HC ex_Hne).
 Qed.
 
 (* collision freedom is satisfiable: on the witness every cached value equals the workspace value *)
